@@ -983,6 +983,8 @@ def pred_lang(test, var, alpha, atom=None):
                     if isinstance(op, ast.NotEq):
                         # x[0] != c is an IndexError on the empty string; callers guard with `not x or`
                         return res.complement()
+            if isinstance(r, (ast.Tuple, ast.List, ast.Set)) and r.elts and all(isinstance(x, ast.Constant) and isinstance(x.value, str) and len(x.value) == 1 for x in r.elts):
+                r = ast.Constant(value=''.join(x.value for x in r.elts))
             if isinstance(r, ast.Constant) and isinstance(r.value, str) and isinstance(op, (ast.In, ast.NotIn)) \
                     and isinstance(l, ast.Subscript) and norm(l.value) == var and norm(l.slice) in ('0', '-1'):
                 cls_ = '[' + ''.join(re.escape(ch) for ch in r.value) + ']' if r.value else '(?!)'
